@@ -28,8 +28,8 @@ Section Generic.
       forall s, reach s -> terminating s = true ->
       forall sched, fair_rounds step (rank s) s sched -> fin (run step sched s) = true.
 
-  (* no handler call BEGINS after `quiet` holds (quiet: Run returned and Terminated [and, for a
-     multiplexed source, its inner sources returned from their own Run]) *)
+  (* no handler call BEGINS after `quiet` holds (quiet: Run returned [and Terminated]; for the multiplexed
+     source also the weaker "the terminating channel is closed") *)
   Definition NoCallAfter (quiet : state -> Prop) (hbegun : state -> nat) : Prop :=
     forall s, quiet s -> forall sched, hbegun (run step sched s) = hbegun s.
 End Generic.
